@@ -291,15 +291,6 @@ PROPS["C16"] = {
 }
 
 
-U2_CODEC = ["ChitchatId::serialize", "ChitchatId::serialized_len", "Heartbeat::serialize", "Heartbeat::serialized_len", "NodeDigest::serialize",
-            "NodeDigest::serialized_len", "alloc::string::String::serialize", "alloc::string::String::serialized_len",
-            "DeletionStatusMutation::serialize", "DeletionStatusMutation::serialized_len", "KeyValueMutationRef::serialize",
-            "KeyValueMutationRef::serialized_len", "DeltaOpRef::serialize", "DeltaOpRef::serialized_len", "DeltaOp::as_ref", "DeltaOp::serialize",
-            "DeltaOp::serialized_len", "kv_ref_from_checked"]
-PROPS["C08"]["verus"].append({"unit": U2, "fns": U2_CODEC})
-PROPS["C07"]["verus"].append({"unit": U2, "fns": ["DeltaOp::serialize", "DeltaOp::serialized_len", "DeltaOpRef::serialized_len", "DeltaOp::as_ref"]})
-PROPS["C08"]["level_text"] += " Proved by Verus on the real text against the documented layout written as spec functions (id = str(node_id) generation(u64) address; op = tag byte then id gc(u64) from(u64) | str(key) str(value) version(u64) status(u8) | max(u64)): ChitchatId, Heartbeat, NodeDigest, String, DeletionStatusMutation, KeyValueMutationRef, DeltaOpRef and DeltaOp append exactly that layout and announce exactly its length (so the length every op announces to the MTU-bounded serializer is the number of bytes it writes)."
-PROPS["C08"]["assumptions"].append("primitive layouts enc_u64 / enc_str / enc_addr are uninterpreted in U2 (u64 and SocketAddr are Kani-proved on the real crate, str is bounded-checked by c08_op_lengths); KeyValueMutationRef::from's result is axiomatised by the field facts proved on its body under another name (kv_ref_from_checked)")
 U3 = "u3_decode"
 U3_FNS = ["impl&%2::deserialize", "impl&%3::deserialize", "impl&%4::deserialize", "impl&%5::deserialize", "impl&%6::deserialize", "impl&%7::deserialize",
           "IpVersion::ip_version_try_from", "IpAddr::deserialize", "alloc::string::String::deserialize", "SocketAddr::deserialize", "ChitchatId::deserialize",
@@ -373,6 +364,16 @@ PROPS.update({
         "design_ref": "DESIGN.md §7 C17",
     },
 })
+
+U2_CODEC = ["ChitchatId::serialize", "ChitchatId::serialized_len", "Heartbeat::serialize", "Heartbeat::serialized_len", "NodeDigest::serialize",
+            "NodeDigest::serialized_len", "alloc::string::String::serialize", "alloc::string::String::serialized_len",
+            "DeletionStatusMutation::serialize", "DeletionStatusMutation::serialized_len", "KeyValueMutationRef::serialize",
+            "KeyValueMutationRef::serialized_len", "DeltaOpRef::serialize", "DeltaOpRef::serialized_len", "DeltaOp::as_ref", "DeltaOp::serialize",
+            "DeltaOp::serialized_len", "kv_ref_from_checked"]
+PROPS["C08"]["verus"].append({"unit": U2, "fns": U2_CODEC})
+PROPS["C07"]["verus"].append({"unit": U2, "fns": ["DeltaOp::serialize", "DeltaOp::serialized_len", "DeltaOpRef::serialized_len", "DeltaOp::as_ref"]})
+PROPS["C08"]["level_text"] += " Proved by Verus on the real text against the documented layout written as spec functions (id = str(node_id) generation(u64) address; op = tag byte then id gc(u64) from(u64) | str(key) str(value) version(u64) status(u8) | max(u64)): ChitchatId, Heartbeat, NodeDigest, String, DeletionStatusMutation, KeyValueMutationRef, DeltaOpRef and DeltaOp append exactly that layout and announce exactly its length (so the length every op announces to the MTU-bounded serializer is the number of bytes it writes)."
+PROPS["C08"]["assumptions"].append("primitive layouts enc_u64 / enc_str / enc_addr are uninterpreted in U2 (u64 and SocketAddr are Kani-proved on the real crate, str is bounded-checked by c08_op_lengths); KeyValueMutationRef::from's result is axiomatised by the field facts proved on its body under another name (kv_ref_from_checked)")
 
 NOT_APPLICABLE = {
     "C01": "liveness over unbounded multi-node histories under fairness; no contract on one call expresses 'within a bounded number of handshakes' (its per-handshake progress sentence is decided under C14: lemma_agree + lemma_admitted_strictly_advances)",
